@@ -50,9 +50,10 @@ type c16Case struct {
 	Spec    *Spec    `json:"spec"`
 	Style   Style    `json:"style"`
 	Neutral []Style  `json:"neutral"`
-	ExtEdit []string `json:"extEdit"` // external label edits: add | change | remove | none
-	Edits   []string `json:"edits"`   // catalogue entry names, applied one at a time
-	EditSeq []int    `json:"editSeq"` // rapid bitstream replacement: choices inside edits are redrawn on replay
+	ExtEdit []string `json:"extEdit"`          // external label edits: add | change | remove | none
+	Edits   []string `json:"edits"`            // catalogue entry names, applied one at a time
+	EditSeq []int    `json:"editSeq"`          // rapid bitstream replacement: choices inside edits are redrawn on replay
+	Broken  int      `json:"broken,omitempty"` // which broken file variant the refused reload uses first
 }
 
 // nodeFor builds a real sidecar API service running the given configuration.
@@ -139,9 +140,10 @@ func decode(code int, data []byte, ret interface{}) error {
 }
 
 type oneShard struct {
-	svc   *sidecar.Service
-	mu    sync.Mutex
-	posts []string
+	svc    *sidecar.Service
+	mu     sync.Mutex
+	posts  []string
+	bodies []string
 }
 
 func (o *oneShard) Shards() ([]*shard.Shard, error) {
@@ -151,6 +153,7 @@ func (o *oneShard) Shards() ([]*shard.Shard, error) {
 		b, _ := json.Marshal(req)
 		o.mu.Lock()
 		o.posts = append(o.posts, u[strings.Index(u, "/api/"):])
+		o.bodies = append(o.bodies, string(b))
 		o.mu.Unlock()
 		c, d := serve(o.svc, "POST", u, b)
 		return decode(c, d, ret)
@@ -187,12 +190,26 @@ func coordinatorSeesInSync(textA, textB string) (bool, error) {
 	if err != nil {
 		return false, err
 	}
+	o, err := runCycle(cmA.ConfigInfo, svc)
+	if err != nil {
+		return false, err
+	}
+	for _, p := range o.posts {
+		if strings.HasPrefix(p, "/api/v1/shard/targets") {
+			return true, nil
+		}
+	}
+	return false, nil
+}
+
+// runCycle runs one real coordination cycle against one sidecar and returns what was posted to it.
+func runCycle(getConfig func() *prom.ConfigInfo, svc *sidecar.Service) (*oneShard, error) {
 	o := &oneShard{svc: svc}
 	st := &stepper{m: o, calls: make(chan int, 4), rel: make(chan struct{})}
 	active := map[uint64]*discovery.SDTargets{1: {Job: "j", ShardTarget: &target.Target{Hash: 1, Labels: labels.Labels{{Name: "__address__", Value: "a:1"}}}}}
 	good := target.NewScrapeStatus(1, 1)
 	good.Health = pscrape.HealthGood
-	c := coordinator.NewCoordinator(&coordinator.Option{MaxProcessSeries: 1000, MaxShard: 1, MinShard: 0}, st, cmA.ConfigInfo,
+	c := coordinator.NewCoordinator(&coordinator.Option{MaxProcessSeries: 1000, MaxShard: 1, MinShard: 0}, st, getConfig,
 		func(uint64) *target.ScrapeStatus { return good }, func() map[uint64]*discovery.SDTargets { return active }, prometheus.NewRegistry(), quiet)
 	ctx, cancel := context.WithCancel(context.Background())
 	done := make(chan struct{})
@@ -205,18 +222,112 @@ func coordinatorSeesInSync(textA, textB string) (bool, error) {
 				cancel()
 				close(st.rel)
 				<-done
-				for _, p := range o.posts {
-					if strings.HasPrefix(p, "/api/v1/shard/targets") {
-						return true, nil
-					}
-				}
-				return false, nil
+				return o, nil
 			}
 		case <-deadline:
 			cancel()
-			return false, fmt.Errorf("cycle did not complete")
+			return nil, fmt.Errorf("cycle did not complete")
 		}
 	}
+}
+
+// brokenVariant returns a file content that no configuration loader accepts, of a size close to the original's.
+func brokenVariant(text string, k int) string {
+	switch k % 4 {
+	case 0:
+		return text + "\nscrape_configs: {not: a list}\n"
+	case 1:
+		return text[:len(text)/2] + "\n  - ][ :\n"
+	case 2:
+		n := len(text) - 20
+		if n < 0 {
+			n = 0
+		}
+		return "global: [\n#" + strings.Repeat("x", n) + "\n"
+	}
+	return "global:\n  scrape_interval: not-a-duration\n" + strings.Repeat("# padding\n", len(text)/10)
+}
+
+// rejectedReload: a coordinator that loaded the content from a file, then refused a broken version of that file,
+// still runs - and pushes - the content it accepted (property: an out-of-sync shard is "first sent the current raw
+// configuration", and in sync means running exactly that).
+func rejectedReload(c *c16Case, text0, h0 string, add func(key, f string, a ...interface{})) []string {
+	d, err := ioutil.TempDir("", "c16-reload-")
+	if err != nil {
+		return nil
+	}
+	defer os.RemoveAll(d)
+	f := d + "/prometheus.yml"
+	_ = ioutil.WriteFile(f, []byte(text0), 0644)
+	cm := prom.NewConfigManager()
+	if cm.ReloadFromFile(f) != nil {
+		return nil
+	}
+	info0 := cm.ConfigInfo()
+	var cls []string
+	accepted, acceptedHash := text0, h0
+	steps := []string{"broken", "valid", "broken"}
+	for i, kind := range steps {
+		var txt string
+		if kind == "broken" {
+			txt = brokenVariant(accepted, c.Broken+i)
+		} else {
+			sp := c.Spec.Clone()
+			applyExt(sp, "add")
+			sp.EvalInterval = "47s"
+			txt = sp.Text(c.Neutral[0])
+		}
+		_ = ioutil.WriteFile(f, []byte(txt), 0644)
+		err := cm.ReloadFromFile(f)
+		if err == nil {
+			if kind == "broken" {
+				cls = append(cls, "reload/broken-file-accepted")
+			}
+			accepted = txt
+			acceptedHash, _, _ = hashOf(txt)
+			cls = append(cls, "reload/accepted")
+		} else {
+			cls = append(cls, "reload/refused")
+		}
+		cur := cm.ConfigInfo()
+		if string(cur.RawContent) != accepted {
+			add("C16/refused-reload-changes-current-config", "after step %d (%s file, reload error: %v) the current raw configuration is\n%q\nbut the last accepted content is\n%q", i, kind, err, cur.RawContent, accepted)
+			return cls
+		}
+		if cur.ConfigHash != acceptedHash {
+			add("C16/refused-reload-changes-current-config", "after step %d (%s file, reload error: %v) the current hash is %s, the hash of the last accepted content is %s", i, kind, err, cur.ConfigHash, acceptedHash)
+			return cls
+		}
+		if string(info0.RawContent) != text0 || info0.ConfigHash != h0 {
+			add("C16/handed-out-config-info-changes", "the ConfigInfo handed out after the first load changed after step %d (%s file): raw content now\n%q", i, kind, info0.RawContent)
+			return cls
+		}
+	}
+	// end to end: a shard that runs something else is sent exactly the accepted content and then agrees
+	svc, _, err := sidecarFor("global:\n  scrape_interval: 59s\n", false)
+	if err != nil {
+		return cls
+	}
+	o, err := runCycle(cm.ConfigInfo, svc)
+	if err != nil {
+		return cls
+	}
+	pushed := false
+	for i, p := range o.posts {
+		if strings.HasPrefix(p, "/api/v1/status/config") {
+			var r shard.UpdateConfigRequest
+			_ = json.Unmarshal([]byte(o.bodies[i]), &r)
+			pushed = true
+			if r.RawContent != accepted {
+				add("C16/pushed-config-is-not-the-current-one", "the coordinator pushed\n%q\nbut the content it accepted last is\n%q", r.RawContent, accepted)
+			}
+		}
+	}
+	if !pushed {
+		add("C16/out-of-sync-shard-not-sent-config", "a reachable shard with another hash was not sent the configuration")
+	}
+	cls = append(cls, "reload/end-to-end-push")
+	return cls
 }
 
 func applyExt(s *Spec, how string) {
@@ -270,6 +381,9 @@ func runC16(rec *vkit.Recorder, c *c16Case, t *rapid.T) []vkit.Violation {
 			}
 			_ = os.RemoveAll(d)
 		}
+	}
+	if len(c.Neutral) > 0 {
+		cls = append(cls, rejectedReload(c, text0, h0, add)...)
 	}
 	// neutral transformations
 	for i, st := range c.Neutral {
@@ -375,7 +489,7 @@ func runC16(rec *vkit.Recorder, c *c16Case, t *rapid.T) []vkit.Violation {
 }
 
 func genC16(t *rapid.T) *c16Case {
-	c := &c16Case{Spec: GenSpec(t), Style: GenStyle(t, "style")}
+	c := &c16Case{Spec: GenSpec(t), Style: GenStyle(t, "style"), Broken: rapid.IntRange(0, 3).Draw(t, "broken")}
 	for i := 0; i < 2; i++ {
 		c.Neutral = append(c.Neutral, GenStyle(t, fmt.Sprintf("neutral%d", i)))
 		c.ExtEdit = append(c.ExtEdit, rapid.SampledFrom([]string{"none", "add", "change", "remove"}).Draw(t, fmt.Sprintf("ext%d", i)))
